@@ -172,3 +172,100 @@ func Macroize(r Rnd, tree []*Dir, maxMacros int) (out []*Dir, macros, depthMax i
 	}
 	return
 }
+
+// Twin adds to the model a copy of one grouped HTTP resource under another path (same methods, same children), so that
+// one piece of text can legally be used from two places.  It returns the indexes of the two blocks, or ok=false.
+func Twin(r Rnd, doc *Doc) (a, b int, ok bool) {
+	var cands []int
+	for i, bl := range doc.Blocks {
+		if res := bl.Resource; res != nil && res.Grouped && len(res.RPC) == 0 && len(res.Methods) > 0 {
+			cands = append(cands, i)
+		}
+	}
+	if len(cands) == 0 {
+		return 0, 0, false
+	}
+	a = pick(r, cands)
+	src := doc.Blocks[a].Resource
+	twin := &Resource{Path: "/twin" + src.Path, Grouped: true, Tags: src.Tags}
+	for _, m := range src.Methods {
+		c := *m
+		c.Path = twin.Path
+		c.OperationID = ""
+		var order []string
+		for _, o := range m.ChildOrder {
+			if o != "OperationId" {
+				order = append(order, o)
+			}
+		}
+		c.ChildOrder = order
+		twin.Methods = append(twin.Methods, &c)
+	}
+	// the original keeps no OperationId either, so that both URLs have identical children
+	for _, m := range src.Methods {
+		m.OperationID = ""
+		var order []string
+		for _, o := range m.ChildOrder {
+			if o != "OperationId" {
+				order = append(order, o)
+			}
+		}
+		m.ChildOrder = order
+	}
+	// URL-level Path stays with each URL (its parameters are per prefix); children = Tags?, Path?, methods
+	if src.PathSchema != nil {
+		twin.PathSchema = src.PathSchema
+	}
+	doc.Blocks = append(doc.Blocks, &Block{Resource: twin})
+	return a, len(doc.Blocks) - 1, true
+}
+
+// ShareChildren rewrites the tree so that the two directives tagged tagA and tagB (URL blocks with identical children)
+// take their children from one shared piece: an INCLUDEd file (mode "include") or a MACRO (mode "macro").
+func ShareChildren(tree []*Dir, tagA, tagB, mode string) ([]*Dir, bool) {
+	out := CloneTree(tree)
+	var da, db *Dir
+	for _, d := range out {
+		if d.Tag == tagA {
+			da = d
+		}
+		if d.Tag == tagB {
+			db = d
+		}
+	}
+	if da == nil || db == nil || len(da.Children) == 0 || len(da.Children) != len(db.Children) {
+		return nil, false
+	}
+	piece := da.Children
+	keep := 0
+	if mode == "macro" {
+		// a Tags directive cannot be a direct child of a MACRO: the URL-level Tags stays where it is
+		for keep < len(piece) && piece[keep].Kw == "Tags" {
+			keep++
+		}
+		// (Tags and Path come first in an URL; a Tags written after Path stays in the piece only if it is not there)
+		for _, x := range piece[keep:] {
+			if x.Kw == "Tags" {
+				return nil, false
+			}
+		}
+		if keep == len(piece) {
+			return nil, false
+		}
+	}
+	headA, headB := append([]*Dir(nil), da.Children[:keep]...), append([]*Dir(nil), db.Children[:keep]...)
+	piece = piece[keep:]
+	switch mode {
+	case "include":
+		mk := func(id int) *Dir {
+			return &Dir{ID: id, Kw: "INCLUDE", Params: []Param{{Text: "shared.jst"}}, IncludeFile: "shared.jst", IncludeDirs: piece}
+		}
+		da.Children = []*Dir{mk(500001)}
+		db.Children = []*Dir{mk(500002)}
+	case "macro":
+		da.Children = append(headA, &Dir{ID: 500001, Kw: "PASTE", Params: []Param{{Text: "@shared", NoQuote: true}}})
+		db.Children = append(headB, &Dir{ID: 500002, Kw: "PASTE", Params: []Param{{Text: "@shared", NoQuote: true}}})
+		out = append(out, &Dir{ID: 500003, Kw: "MACRO", Params: []Param{{Text: "@shared", NoQuote: true}}, Children: piece, Explicit: "yes"})
+	}
+	return out, true
+}
